@@ -36,7 +36,7 @@ func (s *Stream) Span(sp ptrace.Span) {
 	if s.On("span.parent") {
 		sp.SetParentSpanID(s.SpanID())
 	}
-	sp.TraceState().FromRaw(s.StrOpt("span.trace_state"))
+	sp.TraceState().FromRaw(s.TraceState("span.trace_state"))
 	sp.SetName(s.StrOpt("span.name"))
 	if s.On("span.kind") {
 		sp.SetKind(ptrace.SpanKind(rapid.SampledFrom([]int32{0, 1, 2, 3, 4, 5, 6, 100, -1, 2147483647}).Draw(s.T, "kind")))
@@ -74,7 +74,7 @@ func (s *Stream) Span(sp ptrace.Span) {
 			if s.On("link.span_id") {
 				lk.SetSpanID(s.SpanID())
 			}
-			lk.TraceState().FromRaw(s.StrOpt("link.trace_state"))
+			lk.TraceState().FromRaw(s.TraceState("link.trace_state"))
 			lk.SetDroppedAttributesCount(s.U32Opt("link.dac"))
 			s.Attrs(lk.Attributes(), "link.attrs")
 		}
